@@ -54,7 +54,7 @@ func c23Exec(c c23Case, x *pbt.Ctx) error {
 	if err != nil {
 		return err
 	}
-	defer h.n.Stop()
+	defer h.n.Close()
 	w := h.w
 	sub, err := h.n.Disp.Subscribe(protocol.TxMsgEvent{})
 	if err != nil {
